@@ -115,6 +115,58 @@ def proofOf (cs : List CMsg) : BlockRef × List SSig :=
   | [] => (default, [])
   | c :: _ => (⟨tC, c.header.inst, c.header.height, c.header.view, c.header.hash⟩, cs.map (·.sender))
 
+/-- `leanHelixTerm.Dispose()`: stops the election timer of the old in-committee term -/
+def disposeTerm (w : WW) : WW :=
+  let w := if w.n.term.isSome then w.emit .stopTimer else w
+  { w with n := { w.n with term := none } }
+
+/-- `requestOrderedCommitteePersist` under the term-level context (an empty committee when the context is refused) -/
+def askCommittee (w : WW) (h : Nat) : WW × List Member :=
+  let (r, res) := Contexts.step w.n.reg (.for_ ⟨h, Term.maxView⟩)
+  let w := { w with n := { w.n with reg := r } }
+  match res with
+  | .ctx _ =>
+    match w.spi with
+    | .committee ms :: rest => ({ w with spi := rest }, ms)
+    | _ => (w, [])
+  | _ => (w, [])
+
+/-- `NewTermInCommittee` + `startTerm` when this node is a committee member -/
+def createTerm (w : WW) (h : Nat) (members : List Member) (canBeFirst : Bool) : WW :=
+  if members.any (fun m => m.id == w.n.me) then
+    if members.length < 4 then w.emit (.term (.goPanic "committee below hard minimum"))
+    else
+      let t : Term.Node := { cfg := ⟨w.n.me, w.n.inst, h, members⟩ }
+      let (w, t) := withTerm w t (fun tw => Term.startTerm tw canBeFirst)
+      { w with n := { w.n with term := some t } }
+  else w
+
+/-- the middle of `onNewConsensusRound`, after `SetHeightAndResetView(h)` succeeded: dispose the old
+term, ask for the committee, create and start the new term (if this node is a member), report the
+round, install the handler and clear older cache entries -/
+def installTerm (w : WW) (h : Nat) (canBeFirst : Bool) : WW :=
+  let w := disposeTerm w
+  let (w, members) := askCommittee w h
+  let w := createTerm w h members canBeFirst
+  let w := { w with n := { w.n with hasHandler := true } }
+  let w := w.emit (.newRound h canBeFirst)
+  -- ConsumeCacheMessages: clearCacheEarlierThan
+  { w with n := { w.n with cache := clearEarlier w.n.cache h } }
+
+/-- hand one message of the node's height to the term; returns the commit the term asked for, if any -/
+def handInTerm (w : WW) (t : Term.Node) (m : Message) : WW × Option (Block × List CMsg) :=
+  let nouts := w.outs.length
+  let (w, t) := withTerm w t (fun tw =>
+    match m with
+    | .preprepare x => Term.handlePrePrepare tw x
+    | .prepare x => Term.handlePrepare tw x
+    | .commit x => Term.handleCommit tw x
+    | .viewChange x => Term.handleViewChange tw x
+    | .newView x => Term.handleNewView tw x)
+  let w := { w with n := { w.n with term := some t } }
+  let newOuts := (w.outs.drop nouts).filterMap (fun o => match o with | .term x => some x | _ => none)
+  (w, findCommit newOuts)
+
 mutual
 /-- `onNewConsensusRound(prevBlock, _, canBeFirstLeader)` where `prevH` is the previous block's height -/
 def newRound : Nat → WW → Nat → Bool → WW
@@ -127,32 +179,7 @@ def newRound : Nat → WW → Nat → Bool → WW
     | .ctx _ =>
       if w.n.height ≥ h then w                            -- SetHeightAndResetView refused
       else
-        let w := { w with n := { w.n with height := h } }
-        -- dispose the old term
-        let w := if w.n.term.isSome then w.emit .stopTimer else w
-        let w := { w with n := { w.n with term := none } }
-        -- NewLeanHelixTerm: requestOrderedCommitteePersist under the term-level context
-        let (r, res) := Contexts.step w.n.reg (.for_ ⟨h, Term.maxView⟩)
-        let w := { w with n := { w.n with reg := r } }
-        let (w, members) : WW × List Member :=
-          match res with
-          | .ctx _ =>
-            match w.spi with
-            | .committee ms :: rest => ({ w with spi := rest }, ms)
-            | _ => (w, [])
-          | _ => (w, [])
-        let w :=
-          if members.any (fun m => m.id == w.n.me) then
-            if members.length < 4 then w.emit (.term (.goPanic "committee below hard minimum"))
-            else
-              let t : Term.Node := { cfg := ⟨w.n.me, w.n.inst, h, members⟩ }
-              let (w, t) := withTerm w t (fun tw => Term.startTerm tw canBeFirst)
-              { w with n := { w.n with term := some t } }
-          else w
-        let w := { w with n := { w.n with hasHandler := true } }
-        let w := w.emit (.newRound h canBeFirst)
-        -- ConsumeCacheMessages
-        let w := { w with n := { w.n with cache := clearEarlier w.n.cache h } }
+        let w := installTerm { w with n := { w.n with height := h } } h canBeFirst
         let w := drain fuel w h (cacheGet w.n.cache h)
         { w with n := { w.n with cache := cacheErase w.n.cache h } }
     | _ => w
@@ -167,18 +194,9 @@ def drain : Nat → WW → Nat → List Message → WW
     else match w.n.term with
       | none => drain fuel w height rest           -- out of committee: "ignoring message"
       | some t =>
-        let nouts := w.outs.length
-        let (w, t) := withTerm w t (fun tw =>
-          match m with
-          | .preprepare x => Term.handlePrePrepare tw x
-          | .prepare x => Term.handlePrepare tw x
-          | .commit x => Term.handleCommit tw x
-          | .viewChange x => Term.handleViewChange tw x
-          | .newView x => Term.handleNewView tw x)
-        let w := { w with n := { w.n with term := some t } }
-        let newOuts := (w.outs.drop nouts).filterMap (fun o => match o with | .term x => some x | _ => none)
+        let (w, oc) := handInTerm w t m
         let w :=
-          match findCommit newOuts with
+          match oc with
           | none => w
           | some (b, cs) =>
             -- CommitsToProof → WorkerLoop.onCommit
